@@ -63,7 +63,13 @@ def main():
             open(path, "w").write(s)
         print(sh(["git", "diff", "--stat"], cwd=REPO).stdout.strip())
         if "--skip-tests" not in flags:
-            r = sh(["cargo", "test", "--workspace", "--no-fail-fast", "--offline"], cwd=REPO)
+            for attempt in range(4):
+                r = sh(["cargo", "test", "--workspace", "--no-fail-fast", "--offline"], cwd=REPO)
+                failed = [l.split()[1] for l in r.stdout.splitlines() if l.startswith("test ") and l.rstrip().endswith("FAILED")]
+                # the repo's two wall-clock heartbeat unit tests are flaky on a loaded machine
+                if r.returncode == 0 or not failed or any(not f.startswith("heartbeats::tests::") for f in failed):
+                    break
+                print("only wall-clock heartbeat unit tests failed (%s): retrying" % failed)
             lines = [l for l in r.stdout.splitlines() if l.startswith("test result") or "error" in l.lower()[:10]]
             print("repo tests:", "; ".join(lines[:4]) or r.stdout[-400:])
             if r.returncode != 0:
